@@ -118,15 +118,28 @@ class Box:
         shutil.rmtree(self.root, ignore_errors=True)
 
 
-def run_export(make_doc, method, stub_mode, pre, fault_at=None, fault_cls=Fault, record_sites=False, second_fault_at=None, prelude=None, target_name=None):
+def run_export(make_doc, method, stub_mode, pre, fault_at=None, fault_cls=Fault, record_sites=False, second_fault_at=None, prelude=None, target_name=None, tmp_other_fs=False):
     """-> dict(result, before, after, ncalls, sites, captured, stub_output, target_rel)
+
+    tmp_other_fs: the temporary directory lives on another file system than the target (/dev/shm; a rename across the two
+    fails with EXDEV) - silently ignored where no second writable file system exists.
 
     prelude(doc, out_dir): earlier operations on the same document object (exports to other files,
     edits), run before the snapshot; what they capture is discarded."""
     box = Box(f"{os.getpid()}")
     old_tmp = tempfile.tempdir
+    ext_tmp = None
+    if tmp_other_fs and os.path.isdir("/dev/shm") and os.access("/dev/shm", os.W_OK) and os.stat("/dev/shm").st_dev != os.stat(box.root).st_dev:
+        ext_tmp = tempfile.mkdtemp(prefix="verif-c18-", dir="/dev/shm")
+
+    def snap():
+        s_ = snapshot(box.root)
+        if ext_tmp:
+            s_.update({os.path.join("tmp", k): v for k, v in snapshot(ext_tmp).items()})
+        return s_
+
     try:
-        tempfile.tempdir = box.tmp
+        tempfile.tempdir = ext_tmp or box.tmp
         sub = os.path.join("deep", "er") if pre == "missingdir" else ""
         ext = {"rtf": "rtf", "docx": "docx", "html": "html", "pdf": "pdf"}[method]
         target = os.path.join(box.out, sub, target_name or f"report.{ext}")
@@ -158,7 +171,7 @@ def run_export(make_doc, method, stub_mode, pre, fault_at=None, fault_cls=Fault,
             with contextlib.redirect_stdout(io.StringIO()):
                 prelude(doc, box.out)
             del captured[:]
-        before = snapshot(box.root)
+        before = snap()
         n = [0]
         sites = []
         prefix = repo.LIB_PREFIX
@@ -193,11 +206,13 @@ def run_export(make_doc, method, stub_mode, pre, fault_at=None, fault_cls=Fault,
                 res = ("exc", type(e).__name__, str(e)[:80])
             finally:
                 sys.settrace(None)
-        after = snapshot(box.root)
-        return {"result": res, "before": before, "after": after, "ncalls": n[0], "sites": sites, "captured": captured,
+        after = snap()
+        return {"result": res, "tmp_other_fs": bool(ext_tmp), "before": before, "after": after, "ncalls": n[0], "sites": sites, "captured": captured,
                 "stub_output": ((b"CONVERTED:" + stub.seen_input) if stub is not None and stub.seen_input is not None else
                                 (b"CONVERTED:" + captured[-1].encode("utf-8")) if real is not None and captured else None),
                 "target_rel": os.path.relpath(target, box.root), "fired": fired, "pre_bytes": pre_bytes}
     finally:
         tempfile.tempdir = old_tmp
         box.close()
+        if ext_tmp:
+            shutil.rmtree(ext_tmp, ignore_errors=True)
